@@ -17,7 +17,11 @@ fn std_dir() -> PathBuf {
 pub fn expand() -> Result<(), PathError> {
     let std_dir = std_dir();
 
+    #[cfg(all(feature = "verif", not(target_family = "wasm")))]
+    veryl_path::sim::point("std.exists", &std_dir)?;
     if !std_dir.exists() {
+        #[cfg(all(feature = "verif", not(target_family = "wasm")))]
+        veryl_path::sim::point("std.mkdir", &std_dir)?;
         ignore_already_exists(fs::create_dir_all(&std_dir))?;
 
         let lock = veryl_path::lock_dir(&std_dir)?;
@@ -31,6 +35,8 @@ pub fn expand() -> Result<(), PathError> {
                 fs::create_dir_all(parent)?;
             }
 
+            #[cfg(all(feature = "verif", not(target_family = "wasm")))]
+            veryl_path::sim::write_point("std", &path, content.data.as_ref())?;
             fs::write(&path, content.data.as_ref())?;
         }
 
